@@ -79,7 +79,7 @@ func (c *Ctx) fsBackendFuncs() []*ssa.Function {
 func (c *Ctx) isNamerResult(v ssa.Value) bool {
 	hit := false
 	direct := true
-	c.P.TraceBack(v, TraceOpts{NoParams: true, NoHeapFields: true}, func(x ssa.Value, _ []int) bool {
+	c.P.TraceBack(v, TraceOpts{NoHeapFields: true}, func(x ssa.Value, _ []int) bool {
 		switch y := x.(type) {
 		case *ssa.Call:
 			if c.An.IsFileNamerCall(y) {
